@@ -50,7 +50,7 @@ def full_name(d, i):
     while i is not None:
         parts.append(seg(i))
         i = d.states[i]['parent']
-    return '_'.join(reversed(parts))
+    return getattr(d, 'sep', '_').join(reversed(parts))
 
 
 class NRun7(aflat.Run7):
@@ -97,6 +97,13 @@ class NRun7(aflat.Run7):
 
     def build(self, extra):
         d = self.d
+        sep = getattr(d, 'sep', '_')
+        if sep != '_' and not getattr(self.cls, '_verif_sep', None):
+            # a custom separator the documented way: a state subclass with its own `separator`, used by a machine
+            # subclass through `state_cls` (embedded machines are built from the same class)
+            self.cls = type(self.cls.__name__ + 'Sep', (self.cls,),
+                            {'state_cls': type('SepState', (self.cls.state_cls,), {'separator': sep}),
+                             '_verif_sep': sep})
         kw = dict(model=[self.model_objs[m] for m in d.models], states=self.state_defs(),
                   transitions=self.transition_defs(), initial=full_name(d, d.initial), send_event=d.send_event,
                   auto_transitions=False, ignore_invalid_triggers=d.ignore,
